@@ -64,7 +64,12 @@ def map_math_functions_by_name(i, func, pars, allowed_nonsmoothness="none"):
                              "to return sign")
     elif func == make_f("copysign") and len(pars) == 2:
         if allowed_nonsmoothness == "discontinuous":
-            return 0
+            if i == 1:
+                return 0
+            else:
+                # d/da copysign(a, b) = sign(a)*sign(b) away from the zeros
+                return (make_f("copysign")(1, pars[0])
+                        * make_f("copysign")(1, pars[1]))
         else:
             raise ValueError("sign is discontinuous"
                              ", pass allowed_nonsmoothness='discontinuous' "
